@@ -2142,3 +2142,54 @@ def run_destindep(prog, ctx=None):
                            f.qn, norm(show(n, f))[:40], pids[vid], lname))
                 res.count("stores")
     return res
+
+
+def repeated_calls(prog, f):
+    """(callee, argument texts) -> number of calls with literally these arguments in function f (callees called >= 3 times)"""
+    groups = {}
+    for b, i, e in f.elements():
+        if e.get("k") == "call" and len(e.get("args", [])) >= 2:
+            nm = callee_name(e)
+            if nm:
+                groups.setdefault(nm, []).append(e)
+    out = {}
+    for nm, calls in groups.items():
+        if len(calls) < 3:
+            continue
+        for c in calls:
+            t = tuple(norm(show(strip(a, all_casts=True), f)) for a in c["args"])
+            out.setdefault(nm, {})
+            out[nm][t] = out[nm].get(t, 0) + 1
+    return out
+
+
+def run_argdeviant(prog, ctx=None):
+    """ARGDEVIANT (copy and paste inside one function): mustcheck.json lists the functions that call one callee three times or
+    more with literally the same arguments every time (a repeated block, e.g. the three `memcmp(ident, cid, len)` of the node
+    lookup).  Such a block stays uniform: exactly one call that now differs from the others in exactly one argument is the odd
+    one of the block."""
+    import json as _json, os as _os
+    res = Result("ARGDEVIANT")
+    ref = _json.load(open(_os.path.join(_os.path.dirname(_os.path.abspath(__file__)), "mustcheck.json"))).get("repeated", {})
+    byname = {f.file + ":" + f.qn: f for f in prog.functions.values()}
+    for k, callees in sorted(ref.items()):
+        f = byname.get(k)
+        if f is None or f.nocfg:
+            continue
+        cur = repeated_calls(prog, f)
+        for nm, (args, cnt) in sorted(callees.items()):
+            args = tuple(args)
+            now = cur.get(nm)
+            if not now or args not in now:
+                continue
+            ok, msg = True, ""
+            others = {t: c for t, c in now.items() if t != args}
+            if len(others) == 1 and sum(others.values()) == 1 and now[args] >= 2:
+                t = list(others)[0]
+                diff = [j for j in range(min(len(t), len(args))) if t[j] != args[j]]
+                if len(t) == len(args) and len(diff) == 1:
+                    ok = False
+                    msg = "%s called %s %d times with (%s) in the reference tree; now %d times, and once with `%s` in place of `%s`: the odd one of a repeated block" % (
+                        f.qn, nm, cnt, ", ".join(args), now[args], t[diff[0]], args[diff[0]])
+            res.ob("%s:%s" % (k.split(":", 1)[1], nm), ok, f, f.line, msg)
+    return res
